@@ -867,6 +867,8 @@ class Executor:
             v = frame.env[node.id]
             if isinstance(v, VConst) and isinstance(v.py, type):
                 return v.py
+            if isinstance(v, VConst) and isinstance(v.py, PyRaise):
+                return v.py.cls         # re-raising a caught exception object kept in a local
             raise Unsupported('raise of a non-class local')
         try:
             obj = self.resolve_global(node, frame)
@@ -1354,6 +1356,11 @@ class Executor:
                 self.store_container(loc, v, frame)
                 return
             if isinstance(base, VRef):
+                sm = getattr(frame.contract, 'store_models', {}).get((base.sort.name, tgt.attr))
+                if sm is not None:
+                    # contract-supplied model of an attribute store on an opaque object
+                    sm(self, frame, base, v)
+                    return
                 st.heap_get(base, tgt.attr)
                 decl = base.sort.attrs[tgt.attr]
                 v = self.coerce(v, decl)
@@ -1528,6 +1535,9 @@ class Executor:
                 return st.heap_get(base, attr)
             raise Unsupported(f'attribute {attr} of {base.sort.name} is not declared in the contract')
         if isinstance(base, VConst):
+            if isinstance(base.py, PyRaise):
+                # a data attribute of a caught exception object (exc.reason, exc.args ...): an opaque value
+                return RefS('ExcAttr').fresh('exc_' + attr)
             try:
                 return self.lift_py(getattr(base.py, attr))
             except AttributeError:
@@ -1998,7 +2008,12 @@ class Executor:
     # ---- calls
     def ex_Await(self, e, frame):
         frame.await_ord += 1
-        return self.eval(e.value, frame)
+        v = self.eval(e.value, frame)
+        hook = getattr(getattr(v, 'sort', None), 'await_hook', None)
+        if hook is not None:
+            # awaiting an object the contract models (a task, a future): its result or its exception
+            return hook(self, frame, v)
+        return v
 
     def ex_Yield(self, e, frame):
         v = self.eval(e.value, frame) if e.value is not None else VNone()
